@@ -7,6 +7,7 @@ func init() {
 		ID:    "C06",
 		Title: "A page using a layout renders the layout with reserves filled by its inserts",
 		Rules: []string{
+			"R-SCOPE / R-BRANCH: every @if branch of the layout is evaluated in a fresh enclosed scope (an insert body that assigns does not leak into the layout)",
 			"R-SHARED-RW: no package-level variable is both written and read on the render paths (state kept between calls: a shared environment for data-less renders, a cache of converted data or parsed programs)",
 			"R-BODYENTRY: every caller of the block parser, evaluated by cases on an abstract parser (token types as named unknowns), enters it only on a token it has looked at and that is not END / ELSE / ELSE_IF — an empty body is an empty block, not the enclosing construct's closer",
 			"R-LAYOUT: the undefined-insert check precedes linking and its error is returned; a reserve is linked to the insert looked up under its own name; every insert registration is dominated by the duplicate check; ApplyLayout replaces the page's statements by the single use statement; the layout is marked and linked before it is applied; a layout that uses a layout is an error; insert content is evaluated with the call's environment; an unfilled reserve yields NIL; reserves are registered by name at any depth; ~ expands to layouts/ resp. components/ only as the first character",
@@ -17,6 +18,8 @@ func init() {
 		NotDecided:  "TODO",
 		Assumptions: trustedBase,
 		Run: func(m *Model, s *Sink) {
+			m.RunBranch(s, "R-BRANCH")
+			m.RunScope(s, "R-SCOPE")                                         // a reserve inside a branch evaluates its insert in that branch's own scope
 			m.RunSharedWrites(s, "R-SHARED-RW", m.Roots().Render, "history") // what one render leaves behind must not reach the next (a shared environment for data-less calls, a cache of bound data, a memo of parsed strings)
 			m.RunLayout(s, "R-LAYOUT")
 			m.RunBodyEntry(s, "R-BODYENTRY") // an empty body (of a slot, an insert, a branch, a loop) does not take the enclosing closer
